@@ -37,9 +37,14 @@ def decl_variants(P='T', U='U'):
             D.method(single(T('void')), 'set', [arg(T(V, 1, '&', [T(p0, 0, '*')]), 'vals'), arg(T(pl, 1, '&'), 'x')]),
             D.method(pair(T(p0), T('ns::Other', 0, '*')), 'both', []),
             D.method(single(T(p0 + '::Value')), 'scoped', [arg(T(p0 + '::Value', 1, '&'), 's')]),
+            D.method(single(T(pl + '::Jacobian')), 'scopedLast', [arg(T(pl + '::Jacobian', 1, '&'), 'j')]),
             D.static(single(T('This')), 'Create', [arg(T(pl), 'seed')]),
             D.prop(T(p0), 'field'),
             D.op(single(T('This')), '+', [arg(T('This', 1, '&'), 'o')]),
+            D.enum('Mode', ['FAST', 'SLOW']),
+            D.method(single(T('void')), 'setMode', [arg(T('This::Mode', 1, '&'), 'm')]),
+            D.method(single(T('gt::This::Mode')), 'getMode', [], 1),
+            D.prop(T('gt::This::Mode'), 'mode'),
         ]
     out = {}
     out['class1'] = ([P], lambda insts: [D.ns('gt', [D.enum('Before', ['A']),
@@ -185,7 +190,7 @@ def _first_diff(a, b):
     return 'lengths %d vs %d' % (len(a), len(b))
 
 
-RENAMES = [('Q', 'R'), ('ZZ', 'YY'), ('T9', 'U9'), ('_t', '_u'), ('U', 'T'), ('Foo_', 'fun_'), ('a', 'b'), ('Valu', 'Othe'), ('e', 'r')]
+RENAMES = [('T', 'POINT'), ('X', 'POINX'), ('Q', 'R'), ('ZZ', 'YY'), ('T9', 'U9'), ('_t', '_u'), ('U', 'T'), ('Foo_', 'fun_'), ('a', 'b'), ('Valu', 'Othe'), ('e', 'r')]
 
 
 def check_rename(case):
